@@ -465,9 +465,18 @@ def g_new(S, dst=None, allow_bad=True):
         S.bind(dst, cols, n)
     else:               # columns= restriction of a dict, [None] fill, or columns alone
         want = S.names(rng.choice([1, 2, 3]))
-        if rng.random() < 0.4:
+        q = rng.random()
+        if q < 0.3:
             S.emit('(tbl new h%d N %s (D))', dst, enc(want))
             S.bind(dst, want, 0)
+        elif q < 0.55:      # records with columns=: the records restricted to these columns, None where a record lacks one
+            if not cols:
+                cols = S.names(2)
+            recs = [{c: S.cell() for c in cols if rng.random() < 0.8} for _ in range(n)]
+            allk = set(c for rec in recs for c in rec)
+            S.emit('(tbl new h%d (L%s) %s (D))', dst, ''.join(' ' + kv(rec) for rec in recs), enc(want))
+            S.bind(dst, want, 0 if not allk else (len(recs) if any(c in allk for c in want) else 1))
+            S.tags.add('new-records-columns')
         else:
             if not cols:
                 cols = S.names(2)
